@@ -118,5 +118,12 @@ CLAIMS = {
           'The parser half (it only sees tokens) is decided by execution: each token sequence (generated programs and the token lists of all corpus programs) is rendered in 3 (quick) / 8 (thorough) independently randomised layouts - comments at any gap, line breaks wherever no semicolon is inserted, explicit/newline/omitted terminators, trailing commas - and all must give the same erased tree. Partial proof.',
   'note': 'Comment handling inside the parser (comment tokens filtered in next(), re-scan after goback) is covered by correspondence, not by a theorem yet.',
  },
+ 'C05': {
+  'category': 'proof',
+  'technique': 'Lean 4 proof that every scanner-returned offset names its token text in chars (all states, all inputs) + typed walk of every accepted tree against a lexeme constraint table',
+  'text': 'nextToken_at_pos / scanToken_text: for every scanner state and input, each (offset, token) pair the scanner returns has the token text at that char offset in the source (or is the automatic semicolon sitting at the end of the line\'s last token), only white space is skipped before it and the scanner ends right after it - so byte/char confusion or a wrong advance cannot occur in the scanner. '
+          'That the parser stores the right offsets in the right fields is decided by execution on every accepted input (generated programs in random layouts with multi-byte characters, tabs, CR LF, multi-line raw strings and comments before the checked tokens; corpus; mutants; soup; 19 exhaustive context streams; the same files read from disk with CR LF and BOM): the implementation tree is walked BY TYPE (schema extracted from ast.rs each run) and every position field must name the lexeme of the constraint table, bracket pairs ordered and strictly containing their contents, siblings in source order. Partial proof.',
+  'note': 'Unconstrained by the property and not judged: LabeledStmt.pos, FuncType.pos of interface method elements (0), ChannelType.pos.1 without arrow, File.line_info.',
+ },
 }
 NOT_CLAIMED = {}
